@@ -56,16 +56,44 @@ def gen_library(rng, idx):
         req = next((i for i, (_, d) in enumerate(p) if d), len(p))
         return sorted(rng.randint(0, req) for _ in range(rng.choice([1, 1, 2])))
 
+    def cxx_keys(p, outs):
+        """the C++ argument type lists of every call form (output and inout parameters are `int *`)"""
+        full, k = [], 0
+        for i in range(len(p) + 1):
+            while k < len(outs) and outs[k] == i:
+                full.append(("int*", None))
+                k += 1
+            if i < len(p):
+                full.append((("int*" if p[i][0] == "ioint" else p[i][0]), i))
+        req = next((i for i, (_, d) in enumerate(p) if d), len(p))
+        return {tuple(t for t, vi in full if vi is None or vi < n) for n in range(req, len(p) + 1)}
+
+    def group(name, k, maxn, method):
+        """an overload set that C++ can resolve: no two call forms with the same C++ argument types"""
+        out, seen = [], set()
+        for p in distinct_sigs(k, maxn):
+            outs = outs_for(p)
+            if cxx_keys(p, outs) & seen:
+                outs = []
+                p = [(("int" if t == "ioint" else t), d) for t, d in p]
+            if cxx_keys(p, outs) & seen:
+                continue
+            seen |= cxx_keys(p, outs)
+            out.append(dict(name=name, params=p, ret=None, method=method, ctor=False, outs=outs))
+        return out
+
     funcs = []
     for i in range(rng.randint(2, 4)):
         rt = rng.choice(RET)
-        for p in distinct_sigs(rng.choice([1, 1, 2, 3]), 3):
-            funcs.append(dict(name="fn%d" % i, params=p, ret=rt, method=False, ctor=False, outs=outs_for(p)))
+        for f in group("fn%d" % i, rng.choice([1, 1, 2, 3]), 3, False):
+            f["ret"] = rt
+            funcs.append(f)
     cls = [dict(name="Cls", params=[], ret=None, method=False, ctor=True, outs=[])]
     for i in range(rng.randint(1, 3)):
         rt = rng.choice(RET)
-        for p in distinct_sigs(rng.choice([1, 1, 2]), 3):
-            cls.append(dict(name="meth%d" % i, params=p, ret=rt, method=True, ctor=False, outs=outs_for(p)))
+        for f in group("meth%d" % i, rng.choice([1, 1, 2]), 3, True):
+            f["ret"] = rt
+            cls.append(f)
     return dict(funcs=funcs, cls=cls, idx=idx)
 
 
